@@ -192,6 +192,21 @@ def producer_rules(prog, res):
         res.check(ok2, R, "fallback-block-completes-the-history", f.loc, "after the fallback parser nextCBlock->rep[2] is rewritten on every path (%d parser call(s))" % len(ind),
                   "ZSTD_buildSeqStore: a block parsed by the fallback match finder leaves the previous block's rep[2] in nextCBlock->rep: the repcode search of the next "
                   "producer block turns an offset equal to that stale value into repcode 3 and the frame decodes, without error, to other bytes")
+        # validation of a producer's block starts at the block's position in the FRAME (the decoder's history), which
+        # ZSTD_compress_frameChunk records before each block: the copier is reached only after seqPos.posInSrc was set from it
+        setpos = f.find_roots(lambda x: x.get("k") == "asg" and x.get("op") == "=" and strip_casts(x["lhs"]).get("k") == "mem" and strip_casts(x["lhs"]).get("f") == "posInSrc"
+                              and any(z.get("k") == "mem" and z.get("f") == "blockStartPos" for z in f.walk_deep(x["rhs"])))
+        res.check(bool(setpos) and f.must_pass(via_roots=setpos, targets=cp), R, "validation-starts-at-the-frame-position", f.loc,
+                  "seqPos.posInSrc is set from the block's position in the frame before the transcription",
+                  "ZSTD_buildSeqStore validates a producer's offsets from position 0 of every block: valid matches into an earlier block are refused and, with a dictionary, "
+                  "offsets beyond the window are accepted in every block")
+        fc = prog.fn("ZSTD_compress_frameChunk")
+        rec = fc.find_roots(lambda x: x.get("k") == "asg" and x.get("op") == "=" and strip_casts(x["lhs"]).get("k") == "mem" and strip_casts(x["lhs"]).get("f") == "blockStartPos"
+                            and any(z.get("k") == "mem" and z.get("f") == "consumedSrcSize" for z in fc.walk_deep(x["rhs"])))
+        blk = fc.call_roots(("ZSTD_compressBlock_internal", "ZSTD_compressBlock_targetCBlockSize", "ZSTD_compressBlock_splitBlock"))
+        okp = bool(rec) and len(blk) >= 3 and fc.must_pass(via_roots=rec, targets=blk) and all(fc.must_pass(via_roots=rec, starts=[(b_, i_ + 1)], targets=blk) for b_, i_ in blk)
+        res.check(okp, R, "frame-position-recorded-per-block", fc.loc, "blockStartPos = consumedSrcSize + offset in the chunk, before each block compressor call",
+                  "ZSTD_compress_frameChunk no longer records the position of each block before compressing it")
     p = prog.fn("ZSTD_postProcessSequenceProducerResult")
     gs = guards.guard_sites(p)
     res.check(len([g for g in gs if {"sequenceProducer_failed"} & g.codes]) >= 2, R, "postProcess:failure-tests", p.loc, "too many sequences / zero sequences for a non-empty block are failures", "producer failure tests vanished")
@@ -199,7 +214,7 @@ def producer_rules(prog, res):
     wr = p.call_roots(("memset", "__builtin_memset"))
     res.check(bool(cap) and bool(wr) and p.must_pass(via_edges={(g.bid, g.ok) for g in cap}, targets=wr), R, "postProcess:delimiter-appended-within-capacity", p.loc,
               "a missing final delimiter is appended only when the array has room", "delimiter can be written past the producer's array")
-    res.need(R, 7)
+    res.need(R, 9)
     R2 = "T8.sequence-extraction"
     c = prog.fn("ZSTD_copyBlockSequences")
     gs = [g for g in guards.guard_sites(c) if "dstSize_tooSmall" in g.codes and "f:maxSequences" in (g.L | g.R)]
@@ -385,6 +400,34 @@ def confirm_only_compressed_blocks(prog, res):
     res.need(R, 2)
 
 
+def api_session(prog, res):
+    """T3: ZSTD_compressSequences starts its frame through ZSTD_CCtx_init_compressStream2 (like ZSTD_compressStream2) and
+    then encodes blocks with the context's OWN block state.  (a) With workers that initialisation prepares the MT context
+    only: the block loop may be reached only on the edge where the applied parameters have no worker.  (b) The
+    initialisation moves the context to the loading stage: every path to a successful return goes through a session
+    reset, as the frame end of ZSTD_compressStream2 does."""
+    R = "T3.sequence-api-session"
+    f = prog.fn("ZSTD_compressSequences")
+    init = f.call_roots("ZSTD_CCtx_init_compressStream2")
+    loop = f.call_roots("ZSTD_compressSequences_internal")
+    res.check(len(init) == 1 and len(loop) == 1, R, "anchors", f.loc, "initialisation and block loop present", "anchors vanished")
+    isw = lambda a: any(y.get("k") == "mem" and y.get("f") == "nbWorkers" for y in f.walk_resolved(a))
+    k = lambda v: (lambda b_: const_val(strip_casts(b_)) == v)
+    single = guards.rel_edges(f, isw, ">=", k(1), truth=False) + guards.rel_edges(f, isw, ">", k(0), truth=False) + guards.rel_edges(f, isw, "==", k(0), truth=True) + \
+        guards.truthy_edges(f, lambda c: c.get("k") == "mem" and c.get("f") == "nbWorkers", truth=False)
+    res.check(bool(single) and f.must_pass(via_edges=single, targets=loop), R, "block-loop-only-without-workers", f.loc,
+              "ZSTD_compressSequences_internal is reached only on the `no worker` edge",
+              "ZSTD_compressSequences runs its block loop on a context initialised for workers: the context's own block state was never started "
+              "(SEGV on a fresh context; on a reused one the frame decodes to other bytes)")
+    rs = f.call_roots("ZSTD_CCtx_reset")
+    ok_ret = guards.success_nodes(f)
+    res.check(bool(rs) and bool(ok_ret) and f.must_pass(via_roots=rs, starts=[(b, i + 1) for b, i in init], targets=ok_ret), R, "session-ended-on-success", f.loc,
+              "every successful return passes ZSTD_CCtx_reset(session)",
+              "ZSTD_compressSequences returns success with the context left in the loading stage: the next setParameter(blockDelimiters) / refPrefix is refused "
+              "(stage_wrong) and ZSTD_compressStream2(e_end) of another buffer fails with srcSize_wrong")
+    res.need(R, 3)
+
+
 def run(tier):
     res = Result("C17", tier)
     tus, info = extract(["compress", "common"])
@@ -398,6 +441,7 @@ def run(tier):
     validated_quantities(prog, res)
     confirm_only_compressed_blocks(prog, res)
     merge_conserves_literals(prog, res)
+    api_session(prog, res)
     # frozen guards of lib/compress for the error codes this property owns (shared inventory, split by code)
     import json as _json, os as _os
     from ..rules import guards as _guards
